@@ -25,18 +25,6 @@ Definition lists_cc (l : list acctinfo) : bool :=
   existsb (fun a => match a with CcInfo _ _ => true | _ => false end) l.
 
 (* ------------------------------------------------------------------ dicts *)
-Lemma assoc_app {A} k (a b : dict A) :
-  assoc k (a ++ b) = match assoc k a with Some v => Some v | None => assoc k b end.
-Proof.
-  induction a as [|[k' v] a IH]; [reflexivity|]. cbn [app assoc]. destruct (text_eqb k k'); [reflexivity | exact IH].
-Qed.
-
-Lemma OK_inj {A} (x y : A) : @OK A x = OK y -> x = y.
-Proof. intro H. injection H as H. exact H. Qed.
-
-Lemma assoc_single {A} k k' (v : A) : assoc k [(k', v)] = if text_eqb k k' then Some v else None.
-Proof. reflexivity. Qed.
-
 Lemma assoc_dd_append k k' v (m : dict (list text)) :
   assoc k (dd_append k' v m) =
   if text_eqb k k' then Some (match assoc k m with Some l => l ++ [v] | None => [v] end) else assoc k m.
